@@ -387,7 +387,7 @@ class SE:
             elif {a[0], b[0]} == {'key', 'ref'} and (a if a[0] == 'ref' else b)[1].eq(c.null):
                 t = BoolVal(False)          # a dictionary key (a str) is never None
             elif a[0] != b[0]:
-                t = BoolVal(False) if {a[0], b[0]} & {'int', 'list', 'set', 'str'} else self._unsup('is on %s,%s' % (a[0], b[0]))
+                t = BoolVal(False) if {a[0], b[0]} & {'int', 'list', 'set', 'str', 'pdict'} else self._unsup('is on %s,%s' % (a[0], b[0]))
             else: raise Unsupported('is on %s,%s' % (a[0], b[0]))
             return cont(st, B(t if isinstance(op, ast.Is) else Not(t)))
         if isinstance(op, (ast.Eq, ast.NotEq)):
@@ -480,6 +480,9 @@ class SE:
 
     def getitem(self, st, cv, i, cont):
         c = self.ctx
+        if cv[0] == 'pdict':
+            k = self.to_key(st, i)
+            return self.branch(st, cv[1][k], lambda s: cont(s, R(cv[2][k])), lambda s: self.exit(s, 'KeyError'))
         if cv[0] == 'policies':
             if i[0] != 'ref': raise Unsupported('policy name of kind %s' % i[0])
             pn = self.spec.policy_names(self)
@@ -759,6 +762,16 @@ class SE:
             return self.getitem(st, recv, args[0], cont)
         if name == '__contains__':
             return self.contains_data(st, recv, args[0], lambda s, t: cont(s, B(t)))
+        if name == 'update' and len(args) == 1 and args[0][0] == 'pdict':
+            # dict.update(d): every key of d is stored at once (each of these stores needs its announcement, like a single store)
+            ph, pv = args[0][1], args[0][2]
+            kq = Const('kq_upd', c.Key)
+            if hasattr(self.spec, 'on_data_update'): self.spec.on_data_update(self, st, e, ph, pv)
+            nh = c.fresh('dh_upd', h['dhas'][e].sort()); nv = c.fresh('dv_upd', h['dval'][e].sort())
+            st.pc += [ForAll([kq], nh[kq] == Or(h['dhas'][e][kq], ph[kq]), patterns=[nh[kq]]),
+                      ForAll([kq], nv[kq] == If(ph[kq], pv[kq], h['dval'][e][kq]), patterns=[nv[kq]])]
+            h['dhas'] = Store(h['dhas'], e, nh); h['dval'] = Store(h['dval'], e, nv)
+            return cont(st, self.none())
         raise Unsupported('dict.%s on element data' % name)
 
     # ------------------------------------------------------------------ statements
